@@ -43,10 +43,32 @@ def one(name):
     meta["detected_by"] = dict(exit_code=r.returncode, applied=how, violations=len(viol), obligations=obls[:12], n_obligations=len(obls),
                                bounded_checks=bnds[:8], with_replayed_input=sum(1 for l in viol if "no-failing-input-found" not in l),
                                summary=summary[-1] if summary else "", checked_at_repo_head=run("git -C /repo rev-parse --short HEAD").stdout.strip())
+    rc_show = r.returncode
+    if r.returncode == 0 and not meta.get("neutralised_by_fix"):
+        # a change counts as detected when ANY registered check reports it: try the checks of the other properties whose
+        # contract modules mention one of the changed functions
+        words = set()
+        for f in meta.get("functions_changed") or []:
+            words.update(w for w in re.findall(r"[A-Za-z_][A-Za-z0-9_]{5,}", str(f)))
+        others = {}
+        for other in sorted(os.listdir(os.path.join(ROOT, "contracts"))):
+            opid = other[:-3]
+            if not re.fullmatch(r"C\d\d", opid) or opid == pid:
+                continue
+            src = open(os.path.join(ROOT, "contracts", other)).read()
+            if any(re.search(r"\b" + re.escape(w) + r"\b", src) for w in words):
+                r2 = run(f"cd {ROOT} && VERIF_REPO={S} VERIF_EVIDENCE_DIR={S}/.evidence ./check {opid} --tier quick --jobs 6", timeout=3000)
+                v2 = [l for l in r2.stdout.replace(S, "<scratch>").splitlines() if l.startswith("VIOLATION")]
+                others[opid] = dict(exit_code=r2.returncode, violations=len(v2), first=(v2[0][:300] if v2 else ""))
+                run(f"rm -rf {ROOT}/replays/{opid}")
+                if r2.returncode == 1:
+                    rc_show = f"0 (own check) / 1 by {opid}"
+                    break
+        meta["detected_by"]["other_checks"] = others
     json.dump(meta, open(os.path.join(d, "meta.json"), "w"), indent=1)
     run(f"git -C /repo worktree remove --force {S}")
     run(f"rm -rf {ROOT}/replays/{pid}")
-    return name, r.returncode, obls[:2] + bnds[:1]
+    return name, rc_show, obls[:2] + bnds[:1]
 names = sorted(n for n in os.listdir(os.path.join(ROOT, "seeded")) if not sys.argv[1:] or n.split("_")[0] in sys.argv[1:] or n in sys.argv[1:])
 if os.environ.get("VARIANTS"):
     names = [n for n in names if n.split("_")[1] in os.environ["VARIANTS"].split(",")]
